@@ -11,6 +11,11 @@
 (* (AkArgumentParser.add_argument with _propagate).                        *)
 (* A-spec: Accepts(c, o) <=> the owner of o is an ancestor-or-self of c    *)
 (* in the declared parent relation (reflexive transitive closure).         *)
+(* "Option p" stands for every option string owned by parser p: the driver *)
+(* adds three (--oP, and --yP / --nP which share one destination); all of  *)
+(* them must be accepted / rejected alike.  A command or option-set name   *)
+(* that is not the FIRST argument is an ordinary word (or option value) of  *)
+(* the default command.                                                    *)
 (***************************************************************************)
 EXTENDS Naturals, Sequences, FiniteSets, TLC, Json
 
